@@ -40,6 +40,8 @@ func sameDirImage(a, b dirImage) bool {
 	return true
 }
 
+var optionalCoverH09 = []string{"h09-interrupted-translation-recovered", "h09-interrupted-translation-refused"}
+
 var bitChoices = []uint8{8, 9, 12, 16, 10, 11}
 
 // Verif_H09Translate: C09 — reopening with another index bit size re-buckets without
@@ -73,7 +75,27 @@ func Verif_H09Translate() {
 	}
 	vrt.Assert(s.Close() == nil, "close-no-error")
 
-	switch vrt.Choose("scenario", 3) {
+	switch vrt.Choose("scenario", 3+vrt.Param("crash", 0)) {
+	case 3: // interrupted re-bucketing: never a store that opens with fewer keys
+		c2 := c
+		c2.bits = b2
+		vrt.Assume(b1 != b2)
+		vrt.CrashBegin(dir)
+		s2, err := openCfg(dir, c2)
+		vrt.Assert(err == nil, "open-with-new-bit-size-no-error", "b1", b1, "b2", b2)
+		_ = s2
+		vrt.CrashEnd()
+		img := vrt.CrashImage()
+		cfgs := []vcfg{c, c2}
+		which := vrt.Choose("reopen-with", 2)
+		r, err := openCfg(img, cfgs[which])
+		if err != nil {
+			vrt.Cover(optionalCoverH09[1])
+			return // an open that fails is allowed; one that succeeds must be complete
+		}
+		checkAll(r, keys, m, []string{"interrupted-translation/reopen-old-bits", "interrupted-translation/reopen-new-bits"}[which])
+		vrt.Assert(r.Close() == nil, "close-recovered-no-error")
+		vrt.Cover(optionalCoverH09[0])
 	case 0: // bit-size change
 		c2 := c
 		c2.bits = b2
